@@ -204,6 +204,20 @@ func (b *BinaryExpression) nodeSQL() string {
 		return "NOT " + exprSQL(b.Left)
 	}
 
+	// MATCH (cols) AGAINST (expr [search modifier]) — the parser keeps the right side as a call
+	// named AGAINST whose second argument is the modifier's words
+	if upperOp == "AGAINST" {
+		if fn, ok := b.Right.(*FunctionCall); ok && fn != nil && len(fn.Arguments) >= 1 {
+			s := exprSQL(b.Left) + " AGAINST (" + exprSQL(fn.Arguments[0])
+			if len(fn.Arguments) > 1 {
+				if lit, ok := fn.Arguments[1].(*LiteralValue); ok && lit != nil {
+					s += " " + fmt.Sprint(lit.Value)
+				}
+			}
+			return s + ")"
+		}
+	}
+
 	prec := sqlOperatorPrecedence(upperOp)
 	left := operandSQL(b.Left, prec, false)
 
@@ -292,6 +306,11 @@ func (u *UnaryExpression) SQL() string {
 	inner := exprSQL(u.Expr)
 	switch u.Operator {
 	case Not:
+		// NOT EXISTS has a tree shape of its own (a binary NOT): a unary NOT whose operand begins
+		// with EXISTS keeps its parentheses, otherwise the text would be read as that shape
+		if beginsWithExists(u.Expr) {
+			return "NOT (" + inner + ")"
+		}
 		// the operand of NOT is read at the comparison level: AND / OR below it need parentheses
 		return "NOT " + operandSQL(u.Expr, 3, false)
 	case PGPostfixFactorial:
@@ -302,6 +321,44 @@ func (u *UnaryExpression) SQL() string {
 		return "-" + inner
 	default:
 		return u.Operator.String() + inner
+	}
+}
+
+// beginsWithExists reports whether the text of e starts with EXISTS (e is EXISTS (...) itself or
+// has it as its leftmost operand).
+func beginsWithExists(e Expression) bool {
+	for {
+		switch x := e.(type) {
+		case *ExistsExpression:
+			return x != nil
+		case *BinaryExpression:
+			if x == nil || x.Not || (x.Right == nil && strings.EqualFold(x.Operator, "NOT")) {
+				return false
+			}
+			e = x.Left
+		case *BetweenExpression:
+			if x == nil {
+				return false
+			}
+			e = x.Expr
+		case *InExpression:
+			if x == nil {
+				return false
+			}
+			e = x.Expr
+		case *AnyExpression:
+			if x == nil {
+				return false
+			}
+			e = x.Expr
+		case *AllExpression:
+			if x == nil {
+				return false
+			}
+			e = x.Expr
+		default:
+			return false
+		}
 	}
 }
 
